@@ -6,6 +6,7 @@ import (
 	"fmt"
 	"math"
 	"reflect"
+	"sync"
 	"time"
 
 	bpmn "github.com/olive-io/bpmn/v2"
@@ -417,12 +418,38 @@ func storeRun(sc ValueScenario, res *ValueResult) {
 			items = append(items, handed{it, canon(concrete["v1"]), "the start variable item of the shared option list"})
 			start = it
 		}
-		opts := []bpmn.Option{bpmn.WithContext(ctx), bpmn.WithVariables(map[string]any{"a": start})}
-		for i := range insts {
-			insts[i], err = engine.NewProcess(defs, opts...)
-			if err != nil {
-				res.Mismatches = append(res.Mismatches, "newprocess: "+err.Error())
-				return
+		// the option list is built by appending (spare capacity behind its last element) and the
+		// two instances are created from it at the same time on every second behaviour
+		opts := make([]bpmn.Option, 0, 8)
+		opts = append(opts, bpmn.WithContext(ctx))
+		opts = append(opts, bpmn.WithVariables(map[string]any{"a": start}))
+		if sc.Seed%2 == 0 {
+			var wg sync.WaitGroup
+			errs := make([]error, len(insts))
+			gate := make(chan struct{})
+			for i := range insts {
+				wg.Add(1)
+				go func(i int) {
+					defer wg.Done()
+					<-gate
+					insts[i], errs[i] = engine.NewProcess(defs, opts...)
+				}(i)
+			}
+			close(gate)
+			wg.Wait()
+			for _, e := range errs {
+				if e != nil {
+					res.Mismatches = append(res.Mismatches, "newprocess: "+e.Error())
+					return
+				}
+			}
+		} else {
+			for i := range insts {
+				insts[i], err = engine.NewProcess(defs, opts...)
+				if err != nil {
+					res.Mismatches = append(res.Mismatches, "newprocess: "+err.Error())
+					return
+				}
 			}
 		}
 	} else {
